@@ -755,6 +755,21 @@ pub proof fn lemma_rd_exit<N, const K: usize>(a0: Arena<N, K>, a: Arena<N, K>, n
     }
 }
 
+// state of try_remove_child after remove_all_descendants(c): what is needed to finish the removal
+pub proof fn lemma_try_remove_mid<N, const K: usize>(a0: Arena<N, K>, am: Arena<N, K>, root: Option<usize>, parent: usize, label: usize)
+    requires wf_at(a0, root), a0.dom().contains(parent), label < K, a0[parent].children[label as int].is_some(),
+        descendants_removed(a0, am, a0[parent].children[label as int].unwrap())
+    ensures
+        am.dom().contains(parent), am[parent] == a0[parent], parent != a0[parent].children[label as int].unwrap(),
+        am.dom().contains(a0[parent].children[label as int].unwrap()),
+{
+    let d = choose|d: Map<usize, nat>| ranked(a0, d);
+    let c = a0[parent].children[label as int].unwrap();
+    assert(a0.dom().contains(c) && a0[c].parent == Some(parent));
+    assert(d[parent] < d[c]);
+    if desc(a0, c, parent) { let f = choose|f: nat| is_desc(a0, c, parent, f); lemma_desc_rank(a0, d, c, parent, f); }
+}
+
 impl<T, const K: usize> TreeNode<T, K> {
 //@fn src/tree/graph.rs | impl<T, const K: usize> TreeNode<T, K> | new
 //@spec
@@ -961,6 +976,40 @@ impl<N, const K: usize> Tree<N, K> {
                 node.value == a_mid[subtree_root].value, node.parent == a_mid[subtree_root].parent,
                 forall|l: int| 0 <= l < __i ==> (#[trigger] node.children[l]).is_none(),
             decreases K - __i
+//@end
+
+//@fn src/tree/graph.rs | impl<N, const K: usize> Tree<N, K> | try_remove_child
+//@spec
+    requires old(self).wf(), label < K, old(self).arena@.dom().len() <= i32::MAX
+    ensures
+        final(self).root == old(self).root,
+        // error leaves the tree unchanged; success removes the child and exactly its descendants,
+        // re-flags a child-less parent as leaf, keeps every other node
+        remove_child_post(old(self).arena@, final(self).arena@, parent, label, r is Err),
+        r is Err <==> !old(self).arena@.dom().contains(parent) || old(self).arena@[parent].children[label as int] is None,
+        r matches Ok(v) ==> v == old(self).arena@[old(self).arena@[parent].children[label as int].unwrap()].value,
+        remove_child_post(old(self).arena@, final(self).arena@, parent, label, r is Err) ==> final(self).wf(),
+//@hint start
+        proof {
+            lemma_remove_child_wf_all(old(self).arena@, old(self).root, parent, label);
+            if old(self).arena@.dom().contains(parent) { lemma_count_zero_no_kids(old(self).arena@[parent], 0); }
+        }
+//@hint after self.remove_all_descendants(child_idx)?;
+        proof { lemma_try_remove_mid(old(self).arena@, self.arena@, old(self).root, parent, label); }
+//@hint after self.arena[parent].children[label] = None;
+        proof { lemma_count_zero_no_kids(self.arena@[parent], 0); }
+//@end
+
+//@fn src/tree/graph.rs | impl<N, const K: usize> Tree<N, K> | remove_child
+//@spec
+    requires old(self).wf(), label < K, old(self).arena@.dom().len() <= i32::MAX,
+        // documented panic: the child must exist
+        old(self).arena@.dom().contains(parent), old(self).arena@[parent].children[label as int] is Some,
+    ensures
+        final(self).root == old(self).root,
+        child_removed(old(self).arena@, final(self).arena@, parent, label),
+        r == old(self).arena@[old(self).arena@[parent].children[label as int].unwrap()].value,
+        final(self).wf(),
 //@end
 
 }
